@@ -181,6 +181,13 @@ class Program:
         return None
 
     def _disamb(self, out, text):
+        # a type-relative path (`Type::method`) that matched both a method of `Type` and a free function of the same name
+        # (suffix rule) means the method
+        meth = [b for b in out if self.impl_of.get(b.name)]
+        if meth and len(meth) < len(out):
+            out = meth
+            if len(out) == 1:
+                return out[0]
         # prefer inherent impls, then the first by name; callers can pass hints through text
         inh = [b for b in out if (self.impl_of.get(b.name) or {}).get('trait') is None]
         if len(inh) == 1:
@@ -199,7 +206,7 @@ class Program:
 
 
 def _closure_key(t):
-    m = re.match(r'^\{(closure|coroutine)@([^ }]+:\d+:\d+: \d+:\d+)', t)
+    m = re.match(r'^\{(closure|coroutine|async block|async closure|async fn body)@([^ }]+:\d+:\d+: \d+:\d+)', t)
     return m.group(2) if m else t
 
 
@@ -314,6 +321,7 @@ class Interp:
         self.event_mode = False
         self.cur_tid = 0
         self.objinfo = {}
+        self.type_drops = {}
 
     # ------------------------------------------------------------------ scalars
     def mk_int(self, v, ty):
@@ -957,6 +965,12 @@ class Interp:
             vals = [self.operand(st, fr, o) for (_, o) in items] if form == 'named' else []
             if path.startswith('{coroutine@'):
                 cands = self.prog.find_closure(path)
+                if not cands:
+                    # `async fn`: the resume function is the constructor's {closure#0}
+                    nm = fr.body.name.split('~')[0] + '::{closure#0}'
+                    suffix = fr.body.name[len(fr.body.name.split('~')[0]):]
+                    b = self.prog.bodies.get(nm + suffix) or self.prog.bodies.get(nm)
+                    cands = [b] if b is not None else []
                 defname = cands[0].name if cands else path
                 return Coro(defname, 0, vals)
             return Agg(path, vals)
@@ -1202,12 +1216,15 @@ class Interp:
     # ------------------------------------------------------------------ calls
     def call(self, st, func_text, args, fr=None):
         """returns list of Outcomes"""
+        canon = strip_generics(func_text)
+        # rustc prints "trimmed" paths whose length depends on which names are unique in the crate: also try the last two segments
+        segs = Program._segments(canon)
+        short = '::'.join(segs[-2:]) if len(segs) > 2 and not canon.startswith('<') else canon
         for rx, fn in self.override:
-            if rx.search(func_text):
+            if rx.search(func_text) or rx.search(short):
                 r = fn(self, st, func_text, args, fr)
                 if r is not NotImplemented:
                     return r
-        canon = strip_generics(func_text)
         body = self.prog.find_fn(func_text)
         if body is not None:
             self.stats['calls_inlined'].add(body.name)
@@ -1217,13 +1234,13 @@ class Interp:
             outs = self.run_body(st, body, args)
             return self.try_merge(snap, outs)
         for rx, fn, label in self.models:
-            if rx.search(canon) or rx.search(func_text):
+            if rx.search(canon) or rx.search(func_text) or rx.search(short):
                 self.stats['models_used'].add(label)
                 r = fn(self, st, func_text, args, fr)
                 if r is not NotImplemented:
                     return r
         for rx in self.allow:
-            if rx.search(canon) or rx.search(func_text):
+            if rx.search(canon) or rx.search(func_text) or rx.search(short):
                 self.stats['allow_used'].add(rx.pattern)
                 return [Outcome(st, 'ret', Opaque('allow:' + canon[:40]))]
         raise Unmodelled('call ' + func_text + ((' in ' + fr.body.name) if fr else ''))
@@ -1417,6 +1434,10 @@ class Interp:
             return outs
         if isinstance(v, (Agg, Enum)):
             tyname = v.ty
+            if tyname and tyname in self.type_drops:
+                r = self.type_drops[tyname](self, st, v, ref)
+                if r is not None:
+                    return r
             if tyname and tyname in self.prog.drop_impls:
                 b = self.prog.drop_impls[tyname]
                 self.stats['calls_inlined'].add(b.name)
